@@ -892,6 +892,9 @@ class t2listing(object):
                 next_tablename = self.next_tablename(last_tablename)
                 if next_tablename:
                     self.skip_to_table(next_tablename, last_tablename, 1)
+                    # now at the start of the next known table, which still has to be read:
+                    tablename = next_tablename
+                    continue
             last_tablename = tablename
             tablename = self.next_table()
 
